@@ -2507,7 +2507,7 @@ class Cases:
 def gen_LEVINSON(rng, n, nimpl):
     from spectrum import LEVINSON
     c = Cases('LEVINSON')
-    kinds = ['acorr', 'acorr', 'acorr', 'indef', 'allow', 'order_default', 'order_low', 'order_high']
+    kinds = ['acorr', 'acorr', 'acorr', 'indef', 'allow', 'order_default', 'order_low', 'order_high', 'negdef']
     i = 0
     while len(c.exact) < n:
         kind = kinds[i % len(kinds)]; i += 1
@@ -2517,6 +2517,8 @@ def gen_LEVINSON(rng, n, nimpl):
         if kind in ('indef', 'allow'):
             j = int(rng.integers(1, p + 1)); r = r.copy(); r[j] = r[j] + (3 + rng.integers(0, 3)) * np.real(r[0])
             allow = (kind == 'allow') if rng.integers(0, 2) or kind == 'allow' else None
+        if kind == 'negdef':                     # a negative definite sequence (negative zero lag, every |k| < 1)
+            r = -r; allow = [None, False, True][int(rng.integers(0, 3))]
         if kind == 'order_default':
             order = None
         elif kind == 'order_low':
